@@ -399,3 +399,65 @@ package kapacitor
 //@     modifies nothing
 //@     invariant 0 <= i && set == nil && sets == g.sets[t] && l == sets.Len
 
+
+// ---------------------------------------------------------------- shift.go, sample.go, derivative.go (C10)
+
+// shift: the message's time plus the configured shift, nothing else.
+//@ func (*ShiftNode).doShift
+//@   props C10
+//@   requires n != nil && t != nil
+//@   modifies gfi(t, mutated, bool)
+//@   ensures called(SetTime) && callarg(SetTime, 0) == t.Time() + time.Time(n.shift)
+
+// The received point is not touched: the shifted message is a copy.
+//@ func (*ShiftNode).Point
+//@   props C10
+//@   requires n != nil && p != nil && !gfi(p, mutated, bool)
+//@   ensures !gfi(p, mutated, bool) && result0 != nil && result1 == nil
+//@   ensures callarg(doShift, 0) == result0
+//@ func (*ShiftNode).BatchPoint
+//@   props C10
+//@   requires n != nil && bp != nil && !gfi(bp, mutated, bool)
+//@   ensures !gfi(bp, mutated, bool) && result0 != nil && result1 == nil
+//@ func (*ShiftNode).BeginBatch
+//@   props C10
+//@   requires n != nil && begin != nil && !gfi(begin, mutated, bool)
+//@   ensures !gfi(begin, mutated, bool) && result0 != nil && result1 == nil
+
+// sample: keep every N-th point by count, or the points whose time is a multiple of the duration.
+//@ func (*SampleNode).shouldKeep
+//@   props C10
+//@   requires n != nil && n.s != nil && (n.duration == 0 ==> n.s.N != 0)
+//@   pure
+//@   ensures n.duration != 0 ==> result == (t == t - emod(t, time.Time(n.duration)) || n.duration < 0)
+//@   ensures n.duration == 0 ==> result == (count % n.s.N == 0)
+
+//@ func (*sampleGroup).Point
+//@   props C10
+//@   requires g != nil && g.n != nil && g.n.s != nil && (g.n.duration == 0 ==> g.n.s.N != 0) && p != nil
+//@   modifies g.count
+//@   ensures g.count == old(g.count) + 1 && result1 == nil
+//@   ensures g.n.shouldKeep(old(g.count), p.Time()) ==> result0 == p
+//@   ensures !g.n.shouldKeep(old(g.count), p.Time()) ==> result0 == nil
+
+//@ func numToFloat
+//@   props C10
+//@   pure
+//@   ensures typeis(num, int64) ==> result1 && result0 == float64(as(num, int64))
+//@   ensures typeis(num, float64) ==> result1 && result0 == as(num, float64)
+//@   ensures !typeis(num, int64) && !typeis(num, float64) ==> !result1
+
+// derivative: (f1 - f0) / (elapsed / unit); store when the current value is numeric; emit when
+// both are numeric, time advanced and (for nonNegative) the difference is not negative.
+// Floating point operations are uninterpreted: the contract pins the shape of the formula.
+//@ func (*DerivativeNode).derivative
+//@   props C10
+//@   requires n != nil && n.d != nil && n.diag != nil
+//@   modifies nothing
+//@   ensures !second(numToFloat(curr[n.d.Field])) ==> !result1 && !result2
+//@   ensures second(numToFloat(curr[n.d.Field])) ==> result1
+//@   ensures result2 ==> second(numToFloat(curr[n.d.Field])) && second(numToFloat(prev[n.d.Field]))
+//@       && result0 == (first(numToFloat(curr[n.d.Field])) - first(numToFloat(prev[n.d.Field]))) / (float64(currTime - prevTime) / float64(n.d.Unit))
+//@   ensures second(numToFloat(curr[n.d.Field])) && second(numToFloat(prev[n.d.Field])) && !result2 ==>
+//@       float64(currTime - prevTime) == 0.0
+//@       || (n.d.NonNegativeFlag && first(numToFloat(curr[n.d.Field])) - first(numToFloat(prev[n.d.Field])) < 0.0)
